@@ -89,6 +89,10 @@ func vfDrawSubset(t *rapid.T, universe []string, label string) []string {
 				out = append(out, u)
 			}
 		}
+		if len(out) > 1 && rapid.Bool().Draw(t, label+".order") {
+			// a member lists its topics in whatever order the application subscribed to them
+			out = rapid.Permutation(out).Draw(t, label+".perm")
+		}
 		if len(out) > 0 {
 			return out
 		}
